@@ -37,14 +37,16 @@ SetSum(S) == Cardinality(S)
 NoHdr == [run |-> 0, planner |-> "none", mode |-> "none", lvs |-> 1, maxd |-> 0, rad |-> 0, tol |-> 0,
           bias |-> "p", seeded |-> FALSE]
 NoQ == [sc |-> <<>>, goalf |-> <<>>, pidx |-> <<>>]
-NoApi == [pd |-> 0, T |-> 0, road |-> <<>>, gvalid |-> TRUE, road0 |-> 0, q |-> NoQ, st1 |-> <<>>, inited |-> FALSE]
+NoApi == [pd |-> 0, T |-> 0, road |-> <<>>, gvalid |-> TRUE, road0 |-> 0, q |-> NoQ, st1 |-> <<>>, inited |-> FALSE, panicked |-> FALSE]
 
 Init ==
   /\ l = 1 /\ hdr = NoHdr /\ trees = <<<<>>, <<>>>> /\ acc = {} /\ api = NoApi /\ nviol = 0
 
 Report(v) == IF v = {} THEN TRUE ELSE PrintT("VIOL " \o ToString(hdr.run) \o " " \o ToString(l) \o " " \o ToString(v))
 
-L(cond, label) == IF cond THEN {label} ELSE {}
+\* A call that panicked leaves the planner object in an unspecified state: the panic itself is
+\* reported (C08), whatever the following calls of the same run do is a consequence and is not.
+L(cond, label) == IF cond /\ ~api.panicked THEN {label} ELSE {}
 
 Bound == IF hdr.planner = "rrtstar" THEN Max2(hdr.maxd, hdr.rad)
          ELSE IF hdr.planner = "prm" THEN hdr.rad ELSE hdr.maxd
@@ -138,7 +140,7 @@ EvSetup(e) ==
   IN /\ Report(v)
      /\ trees' = SnapTrees(e.snap)
      /\ acc' = {}
-     /\ api' = [pd |-> e.pd, T |-> 0, road |-> SnapRoad(e.snap), road0 |-> 0, q |-> NoQ, st1 |-> api.st1, inited |-> TRUE,
+     /\ api' = [pd |-> e.pd, T |-> 0, road |-> SnapRoad(e.snap), road0 |-> 0, q |-> NoQ, st1 |-> api.st1, inited |-> TRUE, panicked |-> api.panicked \/ e.kind = "panic",
                  gvalid |-> \A i \in 1 .. Len(e.roots) : e.roots[i].tr = 2 => e.roots[i].valid]
      /\ nviol' = nviol + Cardinality(v)
      \* a problem may live on a different space: resolution and unit are those of the installed one
@@ -146,7 +148,7 @@ EvSetup(e) ==
 
 EvSetPd(e) ==
   /\ Report(L(e.kind = "panic", "C08/panic@" \o e.site))
-  /\ api' = [api EXCEPT !.pd = e.pd]
+  /\ api' = [api EXCEPT !.pd = e.pd, !.panicked = api.panicked \/ e.kind = "panic"]
   /\ nviol' = nviol + (IF e.kind = "panic" THEN 1 ELSE 0)
   /\ UNCHANGED <<hdr, trees, acc>>
 
@@ -247,7 +249,7 @@ EvCRet(e) ==
        \cup L(e.kind # "panic" /\ ~RoadEq(sr, api.road), "C18/snapshot")
        \cup RoadLabels(e.snap)
   IN /\ Report(v)
-     /\ api' = [api EXCEPT !.road = sr]
+     /\ api' = [api EXCEPT !.road = sr, !.panicked = api.panicked \/ e.kind = "panic"]
      /\ nviol' = nviol + Cardinality(v)
      /\ UNCHANGED <<hdr, trees, acc>>
 
@@ -344,7 +346,8 @@ EvRet(e) ==
   IN /\ Report(v)
      /\ trees' = IF tree_pl THEN snapT ELSE trees
      /\ nviol' = nviol + Cardinality(v)
-     /\ UNCHANGED <<hdr, acc, api>>
+     /\ api' = [api EXCEPT !.panicked = api.panicked \/ e.kind = "panic"]
+     /\ UNCHANGED <<hdr, acc>>
 
 
 (***************************************************************************)
